@@ -39,6 +39,9 @@ type urlCase struct {
 	HasQuery bool     `json:"has_query"`
 	Query    string   `json:"query"`
 	Body     bool     `json:"with_body"`
+	// Tunnel: the client's query tunnelling threshold is 1, so every query longer than one byte travels in the body;
+	// scheme, host and the encoded path of the request URL must be what they are without tunnelling
+	Tunnel bool `json:"tunnel,omitempty"`
 }
 
 func (c urlCase) base() string {
@@ -148,6 +151,7 @@ func genCase(t *rapid.T) urlCase {
 		c.Query = strings.Join(parts, "&")
 	}
 	c.Body = rapid.Bool().Draw(t, "body")
+	c.Tunnel = rapid.IntRange(0, 3).Draw(t, "tunnel") == 0
 	return c
 }
 
@@ -178,6 +182,10 @@ func checkURL(rec *stats.Recorder, c urlCase) (msg string, known string) {
 	}
 	baseBefore := base.String()
 	cl := &restli.Client{Client: http.DefaultClient, HostnameResolver: resolver{base}}
+	tunnelled := c.Tunnel && c.HasQuery && len(c.Query) > 1
+	if c.Tunnel {
+		cl.QueryTunnellingThreshold = 1
+	}
 	rp := restli.ResourcePathString(c.resourcePath())
 	var q restli.QueryParamsEncoder
 	if c.HasQuery {
@@ -208,6 +216,9 @@ func checkURL(rec *stats.Recorder, c urlCase) (msg string, known string) {
 	if isDotSegmentCase(c) {
 		labels = append(labels, "dot_segment_key")
 	}
+	if tunnelled {
+		labels = append(labels, "query_tunnelled")
+	}
 	rec.Case(labels...)
 	full := c.resourcePath() + "?" + c.Query
 	if len(c.Context) > 0 || strings.ContainsAny(full, "%(),:'") || isDotSegmentCase(c) {
@@ -237,6 +248,12 @@ func checkURL(rec *stats.Recorder, c urlCase) (msg string, known string) {
 	}
 	if got := u.EscapedPath(); got != wantPath {
 		return fail("path: got %q want %q", got, wantPath)
+	}
+	if tunnelled {
+		if u.RawQuery != "" {
+			return fail("tunnelled request keeps a URL query: %q", u.RawQuery)
+		}
+		wantQuery = ""
 	}
 	if u.RawQuery != wantQuery {
 		return fail("query: got %q want %q", u.RawQuery, wantQuery)
